@@ -55,6 +55,7 @@ type FuncSpec struct {
 	Family     string
 	Props      []string
 	VerifyBody bool
+	NoSafety   bool // only the stated clauses are proved; the zero-annotation safety sweep is not claimed
 }
 
 type Lemma struct {
@@ -191,6 +192,9 @@ func parseClauseLine(fs *FuncSpec, l string) error {
 		return nil
 	case l == "nopanic":
 		fs.NoPanic = true
+		return nil
+	case l == "no-safety":
+		fs.NoSafety = true
 		return nil
 	case l == "inline":
 		fs.Inline = true
@@ -778,6 +782,9 @@ func (e *SpecEnv) ident(n *ast.Ident) Val {
 		if k, ok := o.(*types.Const); ok {
 			return e.constVal(k)
 		}
+		if gv, ok := o.(*types.Var); ok {
+			return c.globalVar(e.st, gv)
+		}
 	}
 	panic(unsupported{"contract: unknown identifier " + n.Name})
 }
@@ -956,6 +963,8 @@ func (e *SpecEnv) seqEqual(op token.Token, a, b SliceV) Val {
 		if ida == idb {
 			t = "true"
 		}
+	} else if oka || okb {
+		t = c.strIsConst(e.st, a, b, oka, ida, idb)
 	} else {
 		aa, ba := c.sliceArr(e.st, a), c.sliceArr(e.st, b)
 		if aa == ba && a.Off == b.Off {
@@ -1017,45 +1026,17 @@ func (e *SpecEnv) methodCall(n *ast.CallExpr, sel *ast.SelectorExpr) (Val, bool)
 		binds[sig.Recv().Name()] = recv
 	}
 	binds["$recv"] = recv
+	single := func(res []Val) Val {
+		if len(res) == 1 {
+			return res[0]
+		}
+		return TupleV(res)
+	}
 	if spec := c.prog.contracts.Funcs[key]; spec != nil && spec.Pure {
-		pk := "purespec:" + specKey(spec.Pkg, spec.Name) + "("
-		for _, k := range sortedKeys(binds) {
-			pk += k + "=" + valKey(c, binds[k]) + ","
-		}
-		single := func(v Val) Val {
-			if t, ok := v.(TupleV); ok && len(t) == 1 {
-				return t[0]
-			}
-			return v
-		}
-		if v, ok := c.specEnv[pk]; ok {
-			return single(v), true
-		}
-		var res []Val
-		for i := 0; i < sig.Results().Len(); i++ {
-			res = append(res, c.symbolic(e.st, "r_"+fn.Name(), sig.Results().At(i).Type()))
-		}
-		c.specEnv[pk] = TupleV(res)
-		return single(TupleV(res)), true
+		return single(c.pureApply("spec:"+specKey(spec.Pkg, spec.Name), args, sig.Results(), e.st)), true
 	}
 	if fn.Pkg() != nil && purePkgs[fn.Pkg().Path()] {
-		k := "pure:" + key + "("
-		for _, a := range args {
-			k += valKey(c, a) + ","
-		}
-		if v, ok := c.specEnv[k]; ok {
-			return v, true
-		}
-		var res []Val
-		for i := 0; i < sig.Results().Len(); i++ {
-			res = append(res, c.symbolic(e.st, "r", sig.Results().At(i).Type()))
-		}
-		var v Val = TupleV(res)
-		if len(res) == 1 {
-			v = res[0]
-		}
-		c.specEnv[k] = v
-		return v, true
+		return single(c.pureApply(key, args, sig.Results(), e.st)), true
 	}
 	return nil, false
 }
